@@ -3,6 +3,7 @@ CONSTANTS
   Inputs <- MCInputs
   GenEdits <- NoGenEdits
   Shipped = {}
+  TsrValues = {TRUE}
   GenSteps = 0
   Quick = TRUE
   PumpK = 3
